@@ -432,6 +432,8 @@ func (t *thread) Step() (bool, error) {
 		if ok := errs.IsErrorCode(err, errs.ErrOK); ok {
 			// If returned early, move onto the next script
 			t.shiftScript()
+			t.lastCodeSep = 0
+			t.codeSepSeen = false
 			return t.scriptIdx >= len(t.scripts), nil
 		}
 		return true, err
